@@ -239,6 +239,8 @@ def replay_experimental(ctx, case, L, dirmap, rng, stats, pre=False, corrupt=Non
     stats["driven"] += 1
     k = "k=%d/%s" % (case["nl"], case["ev"])
     stats["by_k"][k] = stats["by_k"].get(k, 0) + 1
+    if case["st"]["p"] != 0:
+        stats["spec_selected"] += 1
     if corrupt == "grad":
         S.current_target_grad = np.asarray(S.current_target_grad, dtype=float) + 1.0
     elif corrupt == "logd":
@@ -352,7 +354,7 @@ def replay_legacy(ctx, case, L, dirmap, rng, stats):
 def new_stats():
     return {"outcome": {}, "driven": 0, "by_k": {}, "selected_before_abort": 0, "other_allowed_point": 0, "resumed": 0,
             "resumed_from_selected": 0, "no_continuation_in_the_instance": 0, "driven_legacy": 0, "resumed_legacy": 0,
-            "with_a_completed_transition_before": 0}
+            "with_a_completed_transition_before": 0, "spec_selected": 0}
 
 
 def _stratum(c):
@@ -435,7 +437,8 @@ def run(ctx, jobs, orbits, beh, shift, dirmap, guard):
     finally:
         np.random.set_state(rs)
     ctx.observe("abort", {"abort_states_emitted": len(cases), "replayed": len(chosen), "experimental_aborts_driven": stats["driven"],
-                          "by_evaluation": stats["by_k"], "stored_point_is_a_candidate_selected_before_the_abort": stats["selected_before_abort"],
+                          "by_evaluation": stats["by_k"], "aborts_after_a_candidate_was_selected": stats["spec_selected"],
+                          "stored_point_is_a_candidate_selected_before_the_abort": stats["selected_before_abort"],
                           "real_state_is_the_other_allowed_point": stats["other_allowed_point"],
                           "continued_on_the_same_object": stats["resumed"], "of_these_from_a_selected_candidate": stats["resumed_from_selected"],
                           "aborted_in_the_second_transition_of_the_object": stats["with_a_completed_transition_before"],
@@ -447,8 +450,9 @@ def run(ctx, jobs, orbits, beh, shift, dirmap, guard):
     if not ctx.violations:
         ks = {(c["nl"], c["ev"]) for c in cases}
         missing = [k for k in ks if not stats["by_k"].get("k=%d/%s" % k)]
-        if missing or not stats["selected_before_abort"] or not stats["resumed_from_selected"] or not stats["resumed_legacy"] \
-                or not stats["with_a_completed_transition_before"]:
+        # (a sampler that rolls an aborted transition back is at the start of the transition instead of the selected candidate)
+        if missing or not stats["spec_selected"] or not (stats["resumed_from_selected"] or stats["other_allowed_point"]) \
+                or not stats["resumed"] or not stats["resumed_legacy"] or not stats["with_a_completed_transition_before"]:
             raise MachineryError("abort facet vacuous: %r (evaluations never aborted: %r)" % (stats, missing))
     return cases
 
